@@ -1,12 +1,270 @@
-"""Native replay of counterexample traces against the real crate (built with --cfg deadpool_verif)."""
-import os, json, subprocess, hashlib, time
+"""Native replay: traces are executed by the real crate (replay/ driver, real tokio, --cfg deadpool_verif) and by the
+engine in concrete mode; observations must agree step by step.  Used (1) to confirm counterexamples before a
+VIOLATION line is printed and (2) as translation validation of the encoder on every run."""
+import os, json, subprocess, hashlib, time, random, fcntl
 
 HERE = os.path.dirname(os.path.dirname(os.path.abspath(__file__)))
+BUILD = os.environ.get('VERIF_BUILD', os.path.join(HERE, '.build'))
+BIN = os.path.join(BUILD, 'native', 'debug', 'dp-replay')
+BIG_NS = 10 ** 18        # "never expires within the trace"
+STEP_NS = 10 ** 9
 
 
-def confirm(pid, v):
-    return {'status': 'unavailable', 'detail': 'native replay driver not built yet'}
+class ReplayError(Exception):
+    pass
+
+
+_built = False
+
+
+def build_driver():
+    """(re)build the native driver against /repo's current working tree"""
+    global _built
+    if _built: return
+    os.makedirs(BUILD, exist_ok=True)
+    lock = open(os.path.join(BUILD, 'native.lock'), 'w'); fcntl.flock(lock, fcntl.LOCK_EX)
+    try:
+        env = dict(os.environ); env['RUSTFLAGS'] = '--cfg deadpool_verif'; env['CARGO_NET_OFFLINE'] = 'true'
+        lockfile = os.path.join(HERE, 'replay', 'Cargo.lock')
+        r = subprocess.run(['cargo', 'build', '--offline', '--manifest-path', os.path.join(HERE, 'replay', 'Cargo.toml'),
+                            '--target-dir', os.path.join(BUILD, 'native')], env=env, capture_output=True, text=True)
+        if r.returncode != 0: raise ReplayError('native driver build failed:\n' + r.stderr[-3000:])
+        _built = True
+    finally:
+        fcntl.flock(lock, fcntl.LOCK_UN); lock.close()
+
+
+def run_native(trace, keep_path=None):
+    build_driver()
+    d = os.path.join(HERE, 'replays'); os.makedirs(d, exist_ok=True)
+    path = keep_path or os.path.join(BUILD, 'run', f'trace-{os.getpid()}-{random.randrange(1 << 30)}.json')
+    os.makedirs(os.path.dirname(path), exist_ok=True)
+    json.dump(trace, open(path, 'w'), indent=1)
+    try:
+        r = subprocess.run([BIN, path], capture_output=True, text=True, timeout=60)
+    finally:
+        if keep_path is None:
+            try: os.remove(path)
+            except OSError: pass
+    if r.returncode != 0: raise ReplayError(f'native driver exit {r.returncode}: {r.stderr[-800:]}')
+    return [json.loads(l) for l in r.stdout.splitlines() if l.startswith('{')]
+
+
+# ------------------------------------------------------------------ trace construction
+def split_actions(log):
+    """engine log (init/act/env tuples as lists of str) -> (init, [ {act, env} ])"""
+    init = None; acts = []
+    for e in log:
+        if e[0] == 'init': init = e
+        elif e[0] == 'act': acts.append({'act': list(e[1:]), 'env': []})
+        elif e[0] == 'env' and acts: acts[-1]['env'].append(list(e[1:]))
+    return init, acts
+
+
+def conv(v):
+    if isinstance(v, str) and v.lstrip('-').isdigit(): return int(v)
+    return v
+
+
+def build_trace(cfg, log, model, kind='managed'):
+    """cfg: family cfg (jsonable), log: list of [init|act|env ...] entries, model: {'max_size': n}"""
+    init, acts = split_actions(log)
+    lifo = init is not None and len(init) > 1 and init[1] == 'lifo'
+    variants = cfg.get('timeout_variants') or [None]
+    # timers: decide concrete durations so that exactly the timers the trace expires do expire, at the right poll
+    # every call's timeouts: 'zero' -> 0, 'pos' -> BIG unless the trace expires that timer
+    pool_t = cfg.get('pool_timeouts') or [None, None, None]
+    steps = []
+    advances = 0
+    # first pass: find, per get call (task, ordinal), which kinds expire and at which advance ordinal
+    expiry = {}       # (task, callno, kind) -> advance ordinal (1-based)
+    callno = {}; cur = {}
+    nadv = 0
+    for st in acts:
+        a = st['act']
+        if a[0] == 'get':
+            callno[a[1]] = callno.get(a[1], 0) + 1; cur[a[1]] = callno[a[1]]
+        exp = [e for e in st['env'] if e[0] == 'timer' and e[2] == 'expired']
+        if exp:
+            nadv += 1
+            for e in exp: expiry[(a[1], cur.get(a[1]), e[3])] = nadv
+    callno = {}; done = 0
+    pool_has_pos = any(v == 'pos' for v in pool_t)
+    nprefix = len(cfg.get('prefix') or ())
+    for si, st in enumerate(acts):
+        a = [conv(x) for x in st['act']]
+        step = {'act': a, 'env': [[conv(x) for x in e] for e in st['env']]}
+        step['thread'] = a[1] if a[0] in ('get', 'poll', 'cancel', 'drop', 'take', 'step') else 'C'
+        if cfg.get('thread_mode') and si < nprefix: step['atomic'] = True
+        if any(e[0] == 'timer' and e[2] == 'expired' for e in st['env']):
+            step['advance_ns'] = STEP_NS; done += 1
+        if a[0] == 'get':
+            callno[a[1]] = callno.get(a[1], 0) + 1
+            tv = variants[a[2]] if a[2] < len(variants) else None
+            if tv is None:
+                step['timeouts'] = None
+            else:
+                vals = []
+                for kind_, v in zip(('wait', 'create', 'recycle'), tv):
+                    if v is None: vals.append(None)
+                    elif v == 'zero': vals.append(0)
+                    else:
+                        k = expiry.get((a[1], callno[a[1]], kind_))
+                        vals.append(BIG_NS if k is None else max(1, (k - done)) * STEP_NS)
+                step['timeouts'] = vals
+        steps.append(step)
+    pt = []
+    for kind_, v in zip(('wait', 'create', 'recycle'), pool_t):
+        if v is None: pt.append(None)
+        elif v == 'zero': pt.append(0)
+        else:
+            ks = [k for (t, c, kk), k in expiry.items() if kk == kind_]
+            pt.append(STEP_NS if ks else BIG_NS)     # pool-level: one value for all calls (may be unrealisable)
+    return {'kind': kind, 'pool': {'max_size': int(model.get('max_size', 1)), 'lifo': bool(lifo), 'timeouts': pt,
+                                   'runtime': bool(cfg.get('runtime', True)), 'hooks': [list(h) for h in cfg.get('hooks', [])]},
+            'actions': steps, 'cfg': cfg, 'threads': bool(cfg.get('thread_mode'))}
+
+
+# ------------------------------------------------------------------ engine-side execution of a trace
+def norm_metrics_engine(mt):
+    # mt = (created, recycled|None, count) as reprs
+    return {'recycled': mt[1] is not None, 'count': int(mt[2])}
+
+
+def norm_event_engine(e):
+    k = e[0]
+    if k == 'create_call': return ['create_call', e[1]]
+    if k == 'created': return ['created', e[1], e[2]]
+    if k == 'hook_call': return ['hook_call', e[1], e[2], e[3], e[4], norm_metrics_engine(e[5])]
+    if k == 'recycle_call': return ['recycle_call', e[1], e[2], norm_metrics_engine(e[3])]
+    if k == 'pred_call': return ['pred_call', e[1], e[2], norm_metrics_engine(e[3])]
+    if k in ('detach', 'destroy'): return [k, e[1], e[2]]
+    if k == 'handed': return ['handed', e[1], e[2]]
+    return None
+
+
+def norm_event_native(e):
+    k = e[0]
+    if k in ('hook_call',): return e[:5] + [{'recycled': e[5]['recycled'], 'count': e[5]['count']}]
+    if k in ('recycle_call', 'pred_call'): return e[:3] + [{'recycled': e[3]['recycled'], 'count': e[3]['count']}]
+    return e
+
+
+def run_engine(prog, trace):
+    """execute the trace in the engine (concrete max_size), following the scripted outcomes.
+    -> (observations list, violations raised by the oracles along the way)"""
+    from . import w_managed
+    from .core import I
+    cfg = dict(trace['cfg'])
+    cfg['hooks'] = tuple(tuple(h) for h in cfg.get('hooks', ()))
+    cfg['timeout_variants'] = [None if v is None else tuple(v) for v in (cfg.get('timeout_variants') or [None])]
+    cfg['pool_timeouts'] = tuple(cfg.get('pool_timeouts') or (None, None, None))
+    cfg['env'] = {k: (tuple(v) if isinstance(v, list) else v) for k, v in cfg.get('env', {}).items()}
+    cfg['ctl'] = tuple(cfg.get('ctl', ())); cfg['oracles'] = tuple(cfg.get('oracles', ()))
+    cfg['resize_targets'] = tuple(cfg.get('resize_targets', (0, 1, 2, 3)))
+    cfg['lifo'] = trace['pool']['lifo']; cfg['max_size_concrete'] = trace['pool']['max_size']
+    tasks = sorted({s['act'][1] for s in trace['actions'] if s['act'][0] in ('get', 'poll', 'cancel', 'drop', 'take')})
+    cfg['task_names'] = tasks or ['T1']
+    cfg['probe'] = False
+    nprefix = len(cfg.get('prefix') or ()); cfg['prefix'] = ()
+    B = w_managed.ManagedBSE(prog, cfg)
+    init = B.init_states()
+    if len(init) != 1: raise ReplayError('engine: ambiguous initial state')
+    st = init[0]
+    obs = [{'i': -1, 'res': ['built'] if st.gget('pool') is not None else ['build_err'],
+            'events': [x for x in (norm_event_engine(e) for e in st.gget('build_log', ())) if x]}]
+    vios = []
+    for i, step in enumerate(trace['actions']):
+        a = tuple(step['act'])
+        if cfg.get('thread_mode'): B.M.task_mode = i < nprefix
+        succ = B.apply(st, a)
+        want = [tuple(str(x) for x in e) for e in step['env']]
+        match = []
+        for s2 in succ:
+            got = [tuple(str(x) for x in e[1:]) for e in w_managed._events_since_act(s2) if e[0] == 'env']
+            if got == want: match.append(s2)
+        if len(match) != 1:
+            raise ReplayError(f'engine: action {i} {a} has {len(match)} successors matching the script {want} (of {len(succ)})')
+        s2 = match[0]
+        vios.extend(B.check(st, a, s2)); vios.extend(B.check_state(s2))
+        last = s2.gget('last') or {}
+        res = list(last.get('res') or ['ok'])
+        a = tuple(last.get('op') or a)
+        if res[0] == 'at_point': res = ['at_point', str(res[1])]
+        elif res[:2] == ['ok', 'object']:
+            met = w_managed._find_metrics(s2.heap[last['oroot']]); mt = B.W.env.metrics_tuple(met)
+            res = ['ok', 'object', last['oid'], norm_metrics_engine(mt)]
+        elif res[:2] == ['ok', 'retain']:
+            r = last['retained']; res = ['ok', 'retain', r.v if hasattr(r, 'v') else repr(r), list(last['removed'])]
+        elif a[0] == 'status' and res[0] == 'ok':
+            S = res[1]; res = ['ok', [S.f[i].v for i in range(4)]]
+        elif a[0] in ('drop', 'resize', 'close') and res[0] == 'ok': res = ['ok']
+        events = [x for x in (norm_event_engine(e) for e in w_managed._events_since_act(s2)) if x]
+        status, snap = B.observe(s2)
+        obs.append({'i': i, 'res': res, 'events': events, 'status': status, 'snap': snap})
+        st = s2
+    return obs, vios
+
+
+def compare(native, engine):
+    """-> None if equal, else description of the first difference"""
+    if len(native) != len(engine): return f'native produced {len(native)} observations, engine {len(engine)}'
+    for n, e in zip(native, engine):
+        if n.get('mismatch'): return f'step {n["i"]}: native script mismatch: {n["mismatch"]}'
+        if n.get('script_left'): return f'step {n["i"]}: native run did not consume {n["script_left"]} scripted outcome(s)'
+        nr = n['res']; er = e['res']
+        if nr[:2] == ['ok', 'object']:
+            nr = nr[:3] + [{'recycled': nr[3]['recycled'], 'count': nr[3]['count']}]
+        if json.loads(json.dumps(nr)) != json.loads(json.dumps(er)): return f'step {n["i"]}: result native {nr} vs engine {er}'
+        ne = [norm_event_native(x) for x in n['events']]; ee = json.loads(json.dumps(e['events']))
+        if ne != ee: return f'step {n["i"]}: events native {ne} vs engine {ee}'
+        if 'status' in e and e['status'] is not None:
+            if n['status'] != e['status']: return f'step {n["i"]}: status() native {n["status"]} vs engine {e["status"]}'
+            for k in ('permits', 'closed', 'size', 'max_size', 'users'):
+                if n['snap'][k] != e['snap'][k]: return f'step {n["i"]}: snapshot.{k} native {n["snap"][k]} vs engine {e["snap"][k]}'
+            if len(n['snap']['idle']) != e['snap']['idle']: return f'step {n["i"]}: idle count native {len(n["snap"]["idle"])} vs engine {e["snap"]["idle"]}'
+    return None
+
+
+_prog_cache = {}
+
+
+def program(blobs, crates):
+    from . import dump
+    key = tuple(sorted((c, blobs[c]['mir']) for c in crates))
+    if key not in _prog_cache: _prog_cache[key] = dump.load_cached(blobs, list(crates))
+    return _prog_cache[key]
+
+
+def confirm(pid, v, blobs=None):
+    """replay the counterexample natively; 'confirmed' iff the real crate shows, step by step, exactly the observations
+    from which the oracle derived the violation (and the oracle flags it again on the concrete run)"""
+    try:
+        trace = build_trace(v['cfg'], list(v['trace']) + list(v.get('probe_log', [])), v.get('model', {}))
+        h = hashlib.sha1(json.dumps(trace, sort_keys=True, default=str).encode()).hexdigest()[:10]
+        path = os.path.join(HERE, 'replays', f'{pid}-{h}.json'); os.makedirs(os.path.dirname(path), exist_ok=True)
+        trace['violation'] = {'property': pid, 'what': v['what']}
+        native = run_native(trace, keep_path=path)
+        prog = program(blobs, v.get('crates', ['deadpool']))
+        engine, vios = run_engine(prog, trace)
+        diff = compare(native, engine)
+        if diff is not None: return {'status': 'not_reproduced', 'detail': diff, 'path': path}
+        same = [x for x in vios if x['property'] == pid]
+        if not same and not v.get('probe_log'):
+            return {'status': 'not_reproduced', 'detail': 'concrete re-execution of the trace did not raise the violation again', 'path': path}
+        return {'status': 'confirmed', 'path': path, 'steps': len(native)}
+    except ReplayError as e:
+        return {'status': 'replay_error', 'detail': str(e)[:600]}
+    except Exception as e:
+        import traceback
+        return {'status': 'replay_error', 'detail': f'{type(e).__name__}: {e} ' + traceback.format_exc()[-600:]}
 
 
 def replay_file(path, verbose=False):
-    print('replay driver not built yet'); return 2
+    """./check <ID> --replay <trace>: run the stored trace natively and print what the real crate does"""
+    trace = json.load(open(path))
+    native = run_native(trace, keep_path=path)
+    print(f'trace {path}: {trace.get("violation")}')
+    for n in native:
+        print(json.dumps(n))
+    return 0
